@@ -50,6 +50,9 @@ func checkC31(c *core.Ctx) {
 	ruleEventsDecorator(c)
 	ruleStateTrackerCommit(c)
 	rulePublishError(c)
+	// "writes whose commit fails publish nothing": the store's Commit must not turn a failed
+	// commit into a success
+	ruleCommitResultPropagated(c)
 }
 
 // logProducingMethods: methods of Controller whose first result is *ledger.Log.
